@@ -236,44 +236,47 @@ Proof. cbv zeta. split; [discriminate|]. split; [vm_compute; split; discriminate
    nothing is lost.  `master_run` = any schedule of visits (time, HighPrioOnly), Ok = no panic site reached; the
    number it returns counts the visits that reported DpEvents.cycle_completed = completed DP cycles.
    Hypotheses on the start state: not stopped; own address 0..126; transmit buffer >= 255 bytes; the occupied
-   slots have distinct station addresses (`addr_inj`); the master is at a cycle boundary
-   (pos_rem m0 = occupied m0: every occupied slot still has its turn in this cycle, as after DpMaster::new or
-   after a completed cycle) and `Ccomp m0` (CycleState::CycleCompleted only with at least one peripheral);
-   every occupied slot has a device and the pair satisfies C07Joint.jinv (the hypotheses of C07_recovery).
+   slots have distinct station addresses (`addr_inj`); `Ccomp m0` (CycleState::CycleCompleted only with at least
+   one peripheral); every occupied slot has a device and the pair satisfies C07Joint.jinv (the hypotheses of
+   C07_recovery).  The master may be at ANY position of its cycle (pos_rem m0 = the slots that still have their turn
+   in the current cycle; at a cycle boundary, as after DpMaster::new or a completed cycle, pos_rem m0 = occupied m0).
    Any number of slots and peripherals, any storage layout, any visit times (global control interleaved anywhere).
    ==================================================================================================== *)
 From PB Require Import DpMaster Slave C14History DpOracleSound C07Bridge.
 
 (* The bridge: after every run with K completed master cycles, the peripheral of every slot and its device are exactly
-   where n >= K cycles of the single-peripheral joint system of C07_recovery take the pair they started from (the
-   device up to the Global_Control command it recorded, `gceq`: all other fields equal).  So the calls
+   where n cycles of the single-peripheral joint system of C07_recovery take the pair they started from (the
+   device up to the Global_Control command it recorded, `gceq`: all other fields equal), with n >= K for a slot that
+   still had its turn in the cycle in which the run started (vbit m0 i = 0: every slot, if the run starts at a cycle
+   boundary) and n + 1 >= K for the others.  So the calls
    Peripheral::transmit_telegram / receive_reply that DpMaster makes for one peripheral over master cycles ARE a run
    of the joint system, at least one joint cycle per master cycle (a retransmission after a time-out happens at the
    next token visit inside the same master cycle). *)
 Theorem C07_master_runs_joint_system : forall pa bufsize m0 sl0,
   dm_op m0 <> OpStop -> 0 <= p_address pa <= 126 -> (255 <= bufsize)%nat -> addr_inj m0 ->
-  Ccomp m0 -> pos_rem m0 = occupied m0 ->
+  Ccomp m0 ->
   (forall i p0, slot m0 i = Some p0 ->
      exists k s0, find_slave sl0 (pe_addr p0) = Some k /\ nth_error sl0 k = Some s0 /\ jinv pa p0 s0) ->
   forall sched m sl K, master_run pa bufsize (m0, sl0) sched = Ok ((m, sl), K) ->
   forall i p0 k s0, slot m0 i = Some p0 -> find_slave sl0 (pe_addr p0) = Some k -> nth_error sl0 k = Some s0 ->
   exists p s n sx evs,
     slot m i = Some p /\ find_slave sl (pe_addr p) = Some k /\ nth_error sl k = Some s /\
-    joint_run pa (dm_op m0) n (p0, s0) = Ok ((p, sx), evs) /\ gceq sx s /\ (K <= n)%nat.
+    joint_run pa (dm_op m0) n (p0, s0) = Ok ((p, sx), evs) /\ gceq sx s /\ (K <= n + vbit m0 i)%nat.
 Proof. exact master_runs_joint_system. Qed.
 Print Assumptions C07_master_runs_joint_system.
 
 (* C07_recovery for the master: if no pair is in the class of known finding F15, then in EVERY run of the fault-free
-   bus that has completed at least max_retry + 11 master cycles, every peripheral is in DataExchange with its device
-   in Data_Exch -- and stays there: the statement holds for every longer run as well. *)
+   bus that has completed at least max_retry + 11 master cycles (one more if the run starts inside a cycle), every
+   peripheral is in DataExchange with its device in Data_Exch -- and stays there: the statement holds for every
+   longer run as well. *)
 Theorem C07_recovery_master : forall pa bufsize m0 sl0,
   dm_op m0 <> OpStop -> 0 <= p_address pa <= 126 -> (255 <= bufsize)%nat -> addr_inj m0 ->
-  Ccomp m0 -> pos_rem m0 = occupied m0 ->
+  Ccomp m0 ->
   (forall i p0, slot m0 i = Some p0 ->
      exists k s0, find_slave sl0 (pe_addr p0) = Some k /\ nth_error sl0 k = Some s0 /\ jinv pa p0 s0 /\
                   ~ f15_class pa (dm_op m0) (p0, s0)) ->
   forall sched m sl K, master_run pa bufsize (m0, sl0) sched = Ok ((m, sl), K) ->
-  (c07_cycles (p_max_retry pa) <= K)%nat ->
+  (c07_cycles (p_max_retry pa) + (if list_eq_dec Nat.eq_dec (pos_rem m0) (occupied m0) then 0 else 1) <= K)%nat ->
   forall i p, slot m i = Some p ->
   exists k s, find_slave sl (pe_addr p) = Some k /\ nth_error sl k = Some s /\
               pe_state p = PsDataExchange /\ sl_st s = SlDataExch.
@@ -283,12 +286,12 @@ Print Assumptions C07_recovery_master.
 (* the same with the explicit condition of C07_recovery_explicit *)
 Theorem C07_recovery_master_explicit : forall pa bufsize m0 sl0,
   dm_op m0 <> OpStop -> 0 <= p_address pa <= 126 -> (255 <= bufsize)%nat -> addr_inj m0 ->
-  Ccomp m0 -> pos_rem m0 = occupied m0 ->
+  Ccomp m0 ->
   (forall i p0, slot m0 i = Some p0 ->
      exists k s0, find_slave sl0 (pe_addr p0) = Some k /\ nth_error sl0 k = Some s0 /\ jinv pa p0 s0 /\
                   ~ f15_suspect (p0, s0)) ->
   forall sched m sl K, master_run pa bufsize (m0, sl0) sched = Ok ((m, sl), K) ->
-  (c07_cycles (p_max_retry pa) <= K)%nat ->
+  (c07_cycles (p_max_retry pa) + (if list_eq_dec Nat.eq_dec (pos_rem m0) (occupied m0) then 0 else 1) <= K)%nat ->
   forall i p, slot m i = Some p ->
   exists k s, find_slave sl (pe_addr p) = Some k /\ nth_error sl k = Some s /\
               pe_state p = PsDataExchange /\ sl_st s = SlDataExch.
@@ -297,7 +300,8 @@ Print Assumptions C07_recovery_master_explicit.
 
 (* the engine: one token visit from EVERY state satisfying the bridge invariant preserves it, counting the completed
    cycle (BI m sl K: same occupied slots, addresses and operating state as at the start; every slot's pair is
-   reached by n cycles of the joint system with K + [the slot already had its turn in this cycle] <= n) *)
+   reached by n cycles of the joint system with K + [the slot already had its turn in this cycle] <= n + [it
+   already had its turn in the cycle in which the run started]) *)
 Theorem C07_bridge_step : forall pa bufsize op m0 sl0,
   op <> OpStop -> 0 <= p_address pa <= 126 -> (255 <= bufsize)%nat -> addr_inj m0 ->
   (forall i p0, slot m0 i = Some p0 ->
